@@ -156,6 +156,7 @@ def main(run, tier):
     # ---- E2: what is printed for each production (order and presence of its tokens and children)
     from . import printobl
     printobl.print_obligations(run, g, ('minify', 'minify+drop_semi'))
+    printobl.print_obligations(run, g, ('minify', 'minify+drop_semi'), commented=True)
     from . import sepobl
     sepobl.sep_obligations(run, g, ('minify', 'minify+drop_semi'))
     # ---- E2 (depth 2): which statement terminators survive drop_semi, per statement production x context
@@ -194,6 +195,28 @@ def main(run, tier):
                 break
     run.bounded_check('rt.minify', 'one program per production and per depth-2 nesting x token-text variations + %d hand-written fusion '
                       'candidates, x drop_semi off/on' % len(roundtrip.HAND), n, ok)
+    # trees that carry captured comments: the minifier prints no comments, the program must survive unchanged
+    es5 = importlib.import_module('calmjs.parse.parsers.es5')
+    unp = importlib.import_module('calmjs.parse.unparsers.es5')
+    at = importlib.import_module('calmjs.parse.asttypes')
+    commented = ['// note\nx = 1;\ny = 2;', 'function f() {\n // why\n return 1;\n}', 'x = /* a */ 1 + /* b */ 2; // end\n', '/* header */\nvar a = {b: 1 /* c */};',
+                 'if (a) { // x\n b; } else /* y */ c;', 'switch (a) { // s\n case 1: /* k */ b; }', 'a; // one\n// two\nb;\n/* tail */']
+    m = 0
+    for src in commented:
+        want = roundtrip.norm(at, es5.Parser().parse(src), strip_cont=True, drop_empty=True)
+        for ds in (False, True):
+            m += 1
+            text = unp.minify_print(es5.Parser(with_comments=True).parse(src), drop_semi=ds)
+            try:
+                got = roundtrip.norm(at, es5.Parser().parse(text), strip_cont=True, drop_empty=True)
+                why = None if got == want else 'reads back as a different program'
+            except Exception as e:
+                why = 'does not parse: %s' % str(e)[:60]
+            if why:
+                why = 'tree parsed with comment capture, minified (drop_semi=%s) to %r: %s' % (ds, text, why)
+                run.failed('rt.minify.comments', 'E4/bounded', '%s | drop_semi=%s' % (src[:30], ds), dict(source=src, minified=text, problem=why), observed=why,
+                           required='minified text parses back to the same program, with or without captured comments in the tree', replayed=True)
+    run.bounded_check('rt.minify.comments', '%d commented programs parsed with capture x drop_semi off/on' % len(commented), m)
     run.trust('parser determinism (same token sequence => same tree)', 'C03/C04 (this parser stands in for "any conforming ES5 parser")')
     run.assume('"any conforming ES5 parser" is not decidable here: no second parser exists in the sandbox; the token-level argument '
                '(same tokens up to licensed normalisations) carries it, relative to the adjacency obligations not yet proved '
